@@ -52,6 +52,8 @@ def handle (s : S) : List String → S × String
         (s', s!"specviol after-flush-peer-has-not-everything missing={(s'.writtenAll.length - s'.connAll.length)}")
       else (s', v)
     | none => (s, "bad-op")
+  | ["iso", want, got] =>
+    (s, if want == got then "ok" else s!"specviol a fresh transport of the same configuration delivered {got} to its connection for the bytes {want} written to it (bytes of another connection, or its own bytes elsewhere)")
   | ["feed", chunks] =>
     match (if chunks == "-" then some [] else (chunks.splitOn ",").mapM unhex) with
     | some cs => ({ s with br := { s.br with src := s.br.src ++ cs }, stream := s.stream ++ cs.flatten }, "ok")
